@@ -118,6 +118,7 @@ type stackOpts struct {
 	resource     string
 	rateLimit    *config.RateLimit
 	legacyCookie bool
+	ssoDomain    string // sso.domain of the server and the proxy ("" = "wonderwall")
 }
 
 type upstreamRec struct {
@@ -248,8 +249,12 @@ func newStack(o stackOpts) (*stack, error) {
 	if o.rateLimit != nil {
 		cfg.RateLimit = *o.rateLimit
 	}
+	ssoDomain := o.ssoDomain
+	if ssoDomain == "" {
+		ssoDomain = "wonderwall"
+	}
 	if o.sso {
-		cfg.SSO = config.SSO{Enabled: true, Domain: "wonderwall", Mode: config.SSOModeServer,
+		cfg.SSO = config.SSO{Enabled: true, Domain: ssoDomain, Mode: config.SSOModeServer,
 			SessionCookieName: cookie.Session, ServerDefaultRedirectURL: "http://wonderwall/default"}
 	}
 	s.cfg = cfg
@@ -318,7 +323,7 @@ func newStack(o stackOpts) (*stack, error) {
 		pcfg := *cfg
 		pcfg.Ingresses = []string{"http://proxy.wonderwall"}
 		pcfg.OpenID.ACRValues = o.proxyAcr
-		pcfg.SSO = config.SSO{Enabled: true, Domain: "wonderwall", Mode: config.SSOModeProxy,
+		pcfg.SSO = config.SSO{Enabled: true, Domain: ssoDomain, Mode: config.SSOModeProxy,
 			SessionCookieName: cookie.Session, ServerURL: "http://wonderwall"}
 		pcfg.Redis.Address = "unused:6379" // NewReader -> NewStore would dial; replaced below
 		ph, err := newSSOProxyWithStore(&pcfg, s.crypter, store)
